@@ -133,30 +133,41 @@ def run(ctx):
                 w = c["wrap"]
                 for i in range(0, len(s), w):
                     f.write(s[i:i + w] + "\n")
-        g = bnp.Genome.from_file(path)
-        seq = g.read_sequence()
         d = dict(chroms)
         table = Bed6([n for n, a, b, st in ivs], [a for n, a, b, st in ivs], [b for n, a, b, st in ivs], ["i%d" % i for i in range(len(ivs))], [0] * len(ivs), [st for n, a, b, st in ivs])
-        gi = g.get_intervals(table, stranded=True)
-        res = seq[gi]
-        got = [t.upper() for t in text_rows(res)]
         exp = [(d[n][a:b].upper() if st == "+" else rc_model(d[n][a:b])) for n, a, b, st in ivs]
-        ctx.check("genomic_sequence[stranded]", got == exp, "GenomicSequence[stranded-intervals]/wrong", "GenomicSequence[stranded intervals] gave %r expected %r" % (got[:3], exp[:3]), dict(c, got=got, expected=exp), (tuple(chroms), tuple(ivs)))
+        route = c.get("route", "file")
+        if route == "file":
+            g = bnp.Genome.from_file(path)
+            seq = g.read_sequence()
+            results = [("[]", lambda: seq[g.get_intervals(table, stranded=True)])]
+        else:
+            from bionumpy.genomic_data.genomic_sequence import GenomicSequence
+            g = bnp.Genome.from_dict({n: len(sq) for n, sq in chroms})
+            seq = GenomicSequence.from_dict(d)
+            results = [("[]", lambda: seq[g.get_intervals(table, stranded=True)]), ("extract_intervals", lambda: seq.extract_intervals(table, stranded=True))]
+        grouped = all(ivs[i][0] == ivs[i + 1][0] or ivs[i + 1][0] not in [x[0] for x in ivs[:i + 1]] for i in range(len(ivs) - 1))
+        for how, fn in results:
+            res = fn()
+            got = [t.upper() for t in text_rows(res)] if len(res) else []
+            ctx.check("genomic_sequence[stranded]", got == exp, "GenomicSequence[stranded-intervals]/wrong:%s:%s%s" % (route, how, "" if grouped else ":intervals-not-grouped-by-contig"),
+                      "GenomicSequence %s (%s backend) for stranded intervals gave %r expected %r" % (how, route, got[:4], exp[:4]), dict(c, got=got, expected=exp, how=how), (tuple(chroms), tuple(ivs), route, how))
         for p in (path, path + ".fai"):
             if os.path.exists(p):
                 os.remove(p)
 
-    for _ in range(ctx.share(ctx.pick(160, 6000))):
+    for _ in range(ctx.share(ctx.pick(480, 9000))):
         chroms = [("chr%d" % (i + 1), "".join(rng.choice("ACGTN" if rng.random() < 0.3 else "ACGT") for _ in range(rng.randint(1, 40)))) for i in range(rng.randint(1, 3))]
         ivs = []
-        for _ in range(rng.randint(1, 5)):
+        for _ in range(rng.randint(1, 6)):
             n, s = rng.choice(chroms)
             a = rng.randint(0, len(s) - 1)
             b = rng.randint(a + 1, len(s))
             ivs.append((n, a, b, rng.choice("+-")))
         order = {n: i for i, (n, _) in enumerate(chroms)}
-        ivs.sort(key=lambda t: (order[t[0]], t[1], t[2]))
-        ctx.run_case(case_genomic, {"chroms": chroms, "intervals": ivs, "wrap": rng.choice([1, 3, 7, 60])})
+        if rng.random() < 0.5:
+            ivs.sort(key=lambda t: (order[t[0]], t[1], t[2]))      # otherwise: an unsorted interval table (valid BED)
+        ctx.run_case(case_genomic, {"chroms": chroms, "intervals": ivs, "wrap": rng.choice([1, 3, 7, 60]), "route": rng.choice(["file", "dict"])})
 
     # ---- translation -------------------------------------------------------------------------
     def case_translate(c):
@@ -177,6 +188,19 @@ def run(ctx):
         got = [t.upper() for t in text_rows(res)]
         ctx.check("translate", got == exp, "translate/wrong-amino-acid:%s" % ("ascii" if ename == "ascii" else "alphabet"), "translation of %r (%s) gave %r, expected %r" % (rows, ename, got, exp),
                   dict(c, got=got, expected=exp), (ename, tuple(rows)))
+        # results that are still held while later translations run must keep their value (no shared output buffers)
+        held.append((res, exp, dict(c)))
+        if len(held) >= 6:
+            check_held()
+
+    held = []
+
+    def check_held():
+        for res, exp, c in held:
+            got = [t.upper() for t in text_rows(res)]
+            ctx.check("translate-held", got == exp, "translate/held-result-changed-by-a-later-translation", "a translation result held while %d later translations ran now reads %r, expected %r" % (len(held), got[:4], exp[:4]),
+                      dict(c, got=got, expected=exp), None)
+        del held[:]
 
     codons = ["".join(p) for p in itertools.product("ACGT", repeat=3)]
     titems = []
@@ -191,6 +215,8 @@ def run(ctx):
         if rng.random() < 0.3:
             rows = [r.lower() if rng.random() < 0.5 else r for r in rows]
         ctx.run_case(case_translate, {"rows": rows, "enc": rng.choice(["ascii", "ascii", "ACGT"])})
+    check_held()
+    ctx.floor("judged:translate-held", ctx.pick(100, 3000))
     ctx.floor("judged:reverse_complement", ctx.pick(300, 5000))
     ctx.floor("judged:translate", ctx.pick(100, 3000))
     ctx.floor("judged:strand_specific", ctx.pick(50, 3000))
